@@ -6,6 +6,16 @@ import sys
 
 
 def main():
+    if len(sys.argv) > 2 and sys.argv[1] == "--analyzer":
+        from cidersim import boot
+
+        boot.activate("plain")
+        from ciderpress.pyscf.analyzers import ElectronAnalyzer
+        from cidersim.engines import fsim
+
+        an = ElectronAnalyzer.load(sys.argv[2])
+        sys.stdout.write("\n" + fsim.analyzer_digest(an) + "\n")
+        return
     job = json.loads(sys.stdin.read())
     from cidersim import boot
 
